@@ -332,6 +332,29 @@ theorem nodup_startPlan {order : List Node} (h : order.Nodup) : (startPlan order
   apply nodup_split_filter
   exact ((List.reverse_perm order).nodup_iff.mpr h).sublist List.filter_sublist
 
+theorem mem_stopPlan {order : List Node} {c : Comp} :
+    c ∈ stopPlan order ↔ ∃ n, n ∈ order ∧ n.isComp = true ∧ c = Comp.node n := by
+  simp only [stopPlan, List.mem_map, List.mem_append, List.mem_filter, Bool.not_eq_true']
+  constructor
+  · rintro ⟨n, (⟨⟨h1, h2⟩, _⟩ | ⟨⟨h1, h2⟩, _⟩), rfl⟩ <;> exact ⟨n, h1, h2, rfl⟩
+  · rintro ⟨n, h1, h2, rfl⟩
+    cases hr : n.isExp with
+    | false => exact ⟨n, Or.inl ⟨⟨h1, h2⟩, hr⟩, rfl⟩
+    | true => exact ⟨n, Or.inr ⟨⟨h1, h2⟩, hr⟩, rfl⟩
+
+theorem nodup_stopPlan {order : List Node} (h : order.Nodup) : (stopPlan order).Nodup := by
+  simp only [stopPlan]
+  apply nodup_map_node
+  apply nodup_split_filter
+  exact h.sublist List.filter_sublist
+
+/-- whoever sends data to something is not an exporter -/
+theorem compSucc_src_not_exp {cfg : Cfg} {a b : Node} (h : a ∈ compSucc (edges cfg) b) : b.isExp = false := by
+  obtain ⟨m, hm⟩ := path_first (compSucc_path h)
+  cases b with
+  | exp s e => exact absurd hm exp_no_out
+  | _ => rfl
+
 theorem mem_compsOf {order : List Node} {c : Comp} :
     c ∈ compsOf order ↔ ∃ n, n ∈ order ∧ n.isComp = true ∧ c = Comp.node n := by
   simp only [compsOf, List.mem_map, List.mem_filter]
@@ -395,6 +418,53 @@ theorem nodup_of_nodupB {α : Type} [DecidableEq α] {l : List α} (h : nodupB l
   | cons a l ih =>
     simp only [nodupB, Bool.and_eq_true, Bool.not_eq_true', decide_eq_false_iff_not] at h
     exact List.nodup_cons.mpr ⟨h.1, ih h.2⟩
+
+theorem nodupB_of_nodup {α : Type} [DecidableEq α] {l : List α} (h : l.Nodup) : nodupB l = true := by
+  induction l with
+  | nil => rfl
+  | cons a l ih =>
+    rw [List.nodup_cons] at h
+    simp only [nodupB, Bool.and_eq_true, Bool.not_eq_true', decide_eq_false_iff_not]
+    exact ⟨h.1, ih h.2⟩
+
+theorem idxOf_lt_of_split {α : Type} [DecidableEq α] {x y : α} {l2 l3 : List α} : ∀ l1 : List α,
+    (l1 ++ x :: l2 ++ y :: l3).Nodup → List.idxOf x (l1 ++ x :: l2 ++ y :: l3) < List.idxOf y (l1 ++ x :: l2 ++ y :: l3) := by
+  intro l1
+  induction l1 with
+  | nil =>
+    intro hnd
+    have hxy : x ≠ y := by
+      intro h; subst h
+      simp at hnd
+    have : (x == y) = false := by simpa using hxy
+    simp [List.idxOf_cons, this]
+  | cons a l1 ih =>
+    intro hnd
+    simp only [List.cons_append, List.nodup_cons] at hnd
+    have hax : (a == x) = false := by
+      have : a ≠ x := by intro h; subst h; exact hnd.1 (by simp)
+      simpa using this
+    have hay : (a == y) = false := by
+      have : a ≠ y := by intro h; subst h; exact hnd.1 (by simp)
+      simpa using this
+    have := ih (by simpa using hnd.2)
+    simp only [List.cons_append, List.idxOf_cons, hax, hay]
+    simpa using this
+
+/-- on duplicate-free lists the Bool monitor is complete for `Before` -/
+theorem beforeB_of_before {α : Type} [DecidableEq α] {l : List α} {x y : α} (hnd : l.Nodup) (h : Before l x y) :
+    beforeB l x y = true := by
+  have hx := h.mem_left
+  have hy := h.mem_right
+  obtain ⟨l1, l2, l3, rfl⟩ := h
+  simp only [beforeB, Bool.and_eq_true, decide_eq_true_eq, idx]
+  exact ⟨⟨hx, hy⟩, decide_eq_true (idxOf_lt_of_split l1 hnd)⟩
+
+theorem not_before_of_beforeB_false {α : Type} [DecidableEq α] {l : List α} {x y : α} (hnd : l.Nodup)
+    (h : beforeB l x y = false) : ¬ Before l x y := by
+  intro hb
+  rw [beforeB_of_before hnd hb] at h
+  cases h
 
 /-- executable test for `IsTopo` (used for examples and by the driver on observed orders) -/
 def isTopoB {α : Type} [DecidableEq α] (ns : List α) (E : List (α × α)) (order : List α) : Bool :=
